@@ -94,6 +94,22 @@ def rule_classify(ctx: Ctx) -> None:
             "self.is_occluded": {"ground_truth_object.visibility==Visibility.NONE", "self.ground_truth_object.visibility==Visibility.NONE", "Visibility.NONE==ground_truth_object.visibility"},
             "self.ground_truth_object": {"ground_truth_object"},
         }
+        # a field read back (`self.inside_pointcloud`) and the local it was stored from are the same value: compare fully expanded texts
+        def canon(t, depth=0):
+            if t is None or depth > 4:
+                return t
+            t = t.replace("self.ground_truth_object", "ground_truth_object")
+            for fld in ("self.inside_pointcloud_num", "self.inside_pointcloud"):
+                if re.search(re.escape(fld) + r"(?![\w])", t) and st.get(fld) is not None:
+                    t = re.sub(re.escape(fld) + r"(?![\w])", lambda m: canon(st.get(fld), depth + 1), t)
+            return t
+
+        ip = {canon(x) for x in want["self.inside_pointcloud"]}
+        want["self.inside_pointcloud_num"] = {f"len({x})" for x in ip}
+        want["self.is_detected"] = {f"len({x})>=min_points_threshold" for x in ip} | {f"min_points_threshold<=len({x})" for x in ip}
+        want = {k: {canon(x) if k in ("self.inside_pointcloud", "self.is_occluded") else x for x in w} for k, w in want.items()}
+        raw_st = dict(st)
+        st = {k: (canon(v) if k != "self.ground_truth_object" else v) for k, v in raw_st.items()}
         for k, w in want.items():
             ctx.check(st.get(k) in w, "C12-flags", "DynamicObjectWithSensingResult.__init__", k, f"{k} = `{st.get(k)}`; expected one of {sorted(w)[:2]}", fi=ini, expected=sorted(w)[0], found=str(st.get(k)))
     # the visibility parser yields members (otherwise `== Visibility.NONE` can never hold for loaded data)
@@ -226,12 +242,21 @@ def rule_winding(ctx: Ctx) -> None:
     ctx.require(len(lps) == 1, "crop_pointcloud: the edge loop was not found")
     lp = lps[0]
     n_txt = "len(area)//2"
-    ctx.check(S(lp.text) in (f"range({n_txt})", "range(num_vertices)"), "C12-winding", "crop_pointcloud", "edges", f"the edge loop iterates `{S(lp.text)}`; expected every vertex of the lower polygon (range(len(area) // 2))", fi=fi)
-    iv = U(lp.node.target)
+    vname = None
+    if S(lp.text) in (f"enumerate(area[:{n_txt}])", "enumerate(area[:num_vertices])") and isinstance(lp.node.target, ast.Tuple) and len(lp.node.target.elts) == 2:
+        # the same walk over the lower polygon's vertices, with the vertex named
+        iv, vname = U(lp.node.target.elts[0]), U(lp.node.target.elts[1])
+    else:
+        ctx.require(S(lp.text).startswith("range("), f"crop_pointcloud: edge loop header `{S(lp.text)}` not recognised")
+        ctx.check(S(lp.text) in (f"range({n_txt})", "range(num_vertices)"), "C12-winding", "crop_pointcloud", "edges", f"the edge loop iterates `{S(lp.text)}`; expected every vertex of the lower polygon (range(len(area) // 2))", fi=fi)
+        iv = U(lp.node.target)
     nxt = f"area[({iv}+1)%({n_txt})]"
 
     def ren(t: str) -> str:
-        t = strip_v(t).replace(nxt, "B").replace(f"area[({iv}+1)%num_vertices]", "B").replace(f"area[{iv}]", "A")
+        t = strip_v(t)
+        if vname:
+            t = re.sub(rf"(?<![\w.]){re.escape(vname)}(?![\w])", f"area[{iv}]", t)
+        t = t.replace(nxt, "B").replace(f"area[({iv}+1)%num_vertices]", "B").replace(f"area[{iv}]", "A")
         return t.replace("pointcloud[:,1]", "Py").replace("pointcloud[:,0]", "Px").replace("A[1]", "Ay").replace("A[0]", "Ax").replace("B[1]", "By").replace("B[0]", "Bx")
 
     UP = [{("le", "Ay", "Py"), ("lt", "Py", "By")}, {("lt", "Ay", "Py"), ("le", "Py", "By")}]
@@ -252,7 +277,12 @@ def rule_winding(ctx: Ctx) -> None:
               "would be classified outside; use `count != 0` or an unsigned counter", fi=fi, expected="unsigned counter, or inside = (count != 0)", found=f"dtype={dt}, inside by sign={by_sign}")
     rows = 0
     for bp in lp.body:
-        horiz = next((v for k, v in bp.facts.items() if S(k).startswith("same:area[") and "[1]==area[" in S(k)), None)
+        def _vk(k: str) -> str:
+            k = S(k)
+            return re.sub(rf"(?<![\w.]){re.escape(vname)}(?![\w])", f"area[{iv}]", k) if vname else k
+
+        horiz = next((v for k, v in bp.facts.items() if _vk(k).startswith("same:area[") and "[1]==area[" in _vk(k)), None)
+        ctx.require(horiz is not None, "crop_pointcloud: the horizontal-edge test of the winding loop was not recognised")
         asg = {e.recv: e.value for e in bp.effects if e.kind == "assign"}
         mult = {strip_v(e.recv): e for e in bp.effects if e.kind == "aug" and strip_v(e.recv) in ("incremental_flags", "decremental_flags")}
         cnt = [(S(strip_v(e.recv)), e.name, S(e.value)) for e in bp.effects if e.kind == "aug" and S(strip_v(e.recv)).startswith("cnt_arr_[")]
@@ -321,14 +351,24 @@ def rule_fold(ctx: Ctx) -> None:
         inner = [e for e in bp.effects if e.kind == "loop"]
         ctx.require(len(inner) == 1 and S(inner[0].text) == "ground_truth_objects", "_evaluate_pointcloud_for_non_detection: inner loop over ground_truth_objects not recognised")
         g = U(inner[0].node.target)
+        run = pc
         for ib in inner[0].body:
-            v = ib.env.get(pc)
-            want = f"crop_pointcloud({pc},[tuple(e)forein{g}.get_corners(self.sensing_frame_config.get_scale_factor({g}.get_distance())).tolist()],inside=False)"
+            # the running cloud: whatever is re-bound to a crop of itself (the loop variable of the outer loop, or the parameter of a helper the fold was moved into)
+            cands = {k: v for k, v in ib.env.items() if isinstance(v, ast.Call) and S(v.func) == "crop_pointcloud"}
+            if len(cands) == 1 and pc not in cands:
+                run = next(iter(cands))
+            v = ib.env.get(run)
+            want = f"crop_pointcloud({run},[tuple(e)forein{g}.get_corners(self.sensing_frame_config.get_scale_factor({g}.get_distance())).tolist()],inside=False)"
             got = S(v) if v is not None else "unchanged"
             ctx.check(got == want, "C12-fold", "_evaluate_pointcloud_for_non_detection", "step",
                       f"per object the running cloud becomes `{got[:200]}`; it must be the outside crop of the running cloud itself by the object's scaled box: `{want}`", fi=fi,
                       expected=want, found=got[:260], sample={"step": got[:160]})
-        rem = fact_where(bp, lambda k: S(k) == f"truthy:{pc}")
+        if run != pc:
+            init = (inner[0].pre or {}).get(run)
+            ctx.check(init is not None and strip_v(S(init)) in (pc, f"{pc}.copy()"), "C12-fold", "_evaluate_pointcloud_for_non_detection", "start",
+                      f"the fold starts from `{S(init) if init is not None else None}` instead of the non-detection cloud of this iteration", fi=fi)
+        pc_area, pc = pc, run
+        rem = fact_where(bp, lambda k: strip_v(S(k)) == f"truthy:{pc}")
         ap = [a for a in appends(bp) if S(a.recv) == "self.pointcloud_failed_non_detection"]
         if rem is None and ap and not any(pc in k for k in bp.facts):
             ctx.violate("C12-fold", "_evaluate_pointcloud_for_non_detection", "no-report",
@@ -336,9 +376,10 @@ def rule_fold(ctx: Ctx) -> None:
             continue
         ctx.require(rem is not None, "_evaluate_pointcloud_for_non_detection: the remaining-points test was not recognised")
         if rem:
-            ctx.check(len(ap) == 1 and S(ap[0].args[0]) == pc, "C12-fold", "_evaluate_pointcloud_for_non_detection", "report", "remaining points are not reported once as the cropped cloud", fi=fi)
+            ctx.check(len(ap) == 1 and strip_v(S(ap[0].args[0])) == pc, "C12-fold", "_evaluate_pointcloud_for_non_detection", "report", "remaining points are not reported once as the cropped cloud", fi=fi)
         else:
             ctx.check(not ap, "C12-fold", "_evaluate_pointcloud_for_non_detection", "no-report", "an empty remainder is reported as a failure", fi=fi)
+        pc = pc_area
     # manager: area crop, then outside of every scaled object box
     fm = ctx.func("manager.sensing_evaluation_manager.SensingEvaluationManager.crop_pointcloud")
     paths = enum_paths(ctx, fm)
